@@ -130,7 +130,11 @@ pub struct BatchResult {
     pub stats: Stats,
     pub evaluations: u64,
     pub distinct_nontrivial: u64,
-    pub failures: Vec<(u64, Failure)>, // (run index, failure), lowest run indices first
+    /// (run index, failure): for every violation class the KEEP lowest run indices, whatever
+    /// the number of harness threads
+    pub failures: Vec<(u64, Failure)>,
+    /// number of failing runs per violation class (all of them, not only the retained ones)
+    pub class_counts: BTreeMap<String, u64>,
     pub wall_s: f64,
 }
 
@@ -146,7 +150,9 @@ pub fn run_batch(sc: &dyn Scenario, seed: u64, runs: u64, tier: Tier) -> BatchRe
     let t0 = Instant::now();
     let threads = n_threads().max(1);
     let next = AtomicU64::new(0);
-    let agg = Mutex::new((Stats::default(), Vec::<(u64, Failure)>::new(), HashSet::<u64>::new()));
+    let agg = Mutex::new((Stats::default(), Vec::<(u64, Failure)>::new(), HashSet::<u64>::new(), BTreeMap::<String, u64>::new()));
+    // failures retained per violation class (each thread sees its run indices in increasing order)
+    const KEEP: u64 = 8;
     // small batches (the giant-stream scenarios have three runs) are spread over the threads
     let chunk: u64 = if runs < 64 * threads as u64 { 1 } else { 64 };
     std::thread::scope(|s| {
@@ -157,6 +163,7 @@ pub fn run_batch(sc: &dyn Scenario, seed: u64, runs: u64, tier: Tier) -> BatchRe
                     let mut st = Stats::default();
                     let mut fails: Vec<(u64, Failure)> = vec![];
                     let mut keys: HashSet<u64> = HashSet::new();
+                    let mut counts: BTreeMap<String, u64> = BTreeMap::new();
                     loop {
                         let start = next.fetch_add(chunk, Ordering::Relaxed);
                         if start >= runs {
@@ -181,7 +188,9 @@ pub fn run_batch(sc: &dyn Scenario, seed: u64, runs: u64, tier: Tier) -> BatchRe
                                 keys.insert(info.key);
                             }
                             if let Some(f) = f {
-                                if fails.len() < 64 {
+                                let c = counts.entry(f.viol.class.clone()).or_insert(0);
+                                *c += 1;
+                                if *c <= KEEP {
                                     fails.push((i, f));
                                 }
                             }
@@ -191,17 +200,27 @@ pub fn run_batch(sc: &dyn Scenario, seed: u64, runs: u64, tier: Tier) -> BatchRe
                     g.0.merge(&st);
                     g.1.extend(fails);
                     g.2.extend(keys);
+                    for (k, v) in counts {
+                        *g.3.entry(k).or_insert(0) += v;
+                    }
                 })
                 .expect("spawn");
         }
     });
-    let (stats, mut failures, keys) = agg.into_inner().unwrap();
+    let (stats, mut failures, keys, class_counts) = agg.into_inner().unwrap();
     failures.sort_by_key(|f| f.0);
+    let mut kept: BTreeMap<String, u64> = BTreeMap::new();
+    failures.retain(|f| {
+        let c = kept.entry(f.1.viol.class.clone()).or_insert(0);
+        *c += 1;
+        *c <= KEEP
+    });
     BatchResult {
         stats,
         evaluations: runs,
         distinct_nontrivial: keys.len() as u64,
         failures,
+        class_counts,
         wall_s: t0.elapsed().as_secs_f64(),
     }
 }
